@@ -125,6 +125,7 @@ type ProtocolSpec struct {
 	Inv    []*Clause // the global invariant
 	Stable []*Clause // facts the current thread keeps knowing across other threads' steps
 	Steps  []string  // step anchors without ordinal: "call CompareAndSwapInt32", "store proc", ...
+	ThreadLocal []string // ghost variables that belong to one thread: a goroutine started with `go` begins with all of them false
 	Pkg    string
 }
 
@@ -167,7 +168,7 @@ var clauseKW = map[string]bool{
 var topKW = map[string]bool{
 	"func": true, "pred": true, "guarded": true, "lockinv": true, "atomicinv": true, "event": true,
 	"axiom": true, "private": true, "lemma": true, "functype": true,
-	"protocol": true, "shared": true, "inv": true, "stable": true, "steps": true,
+	"protocol": true, "shared": true, "inv": true, "stable": true, "steps": true, "threadlocal": true,
 }
 
 func splitLabel(rest string) (label, text string) {
@@ -299,7 +300,7 @@ func ParseContracts(pkgPath, path, src string) (*ContractFile, error) {
 			curProto = &ProtocolSpec{Struct: m[1], Recv: m[2], Pkg: pkgPath}
 			cf.Protocols = append(cf.Protocols, curProto)
 			cur, curLoop, curGuard, curLemma = nil, nil, nil, nil
-		case "shared", "inv", "stable", "steps":
+		case "shared", "inv", "stable", "steps", "threadlocal":
 			if curProto == nil {
 				return nil, errf("%s outside protocol", kw)
 			}
@@ -308,6 +309,8 @@ func ParseContracts(pkgPath, path, src string) (*ContractFile, error) {
 				curProto.Shared = append(curProto.Shared, splitTopComma(rest)...)
 			case "steps":
 				curProto.Steps = append(curProto.Steps, splitTopComma(rest)...)
+			case "threadlocal":
+				curProto.ThreadLocal = append(curProto.ThreadLocal, splitTopComma(rest)...)
 			case "inv":
 				label, text := splitLabel(rest)
 				curProto.Inv = append(curProto.Inv, &Clause{Kind: "ginv", Label: label, Text: text, Line: ll.line})
